@@ -3,6 +3,7 @@ import DispatchVerif.Core.LaneFFifoMain
 import DispatchVerif.Core.LaneWMain
 import DispatchVerif.Core.HierP
 import DispatchVerif.Core.RootP
+import DispatchVerif.Core.DqW
 /-! # C01 — every submitted work item runs exactly once and none is stranded
 
 Models of the lane protocol of `src/queue.c` / `src/inline_internal.h` at the granularity of the atomic operations on
@@ -67,5 +68,35 @@ theorem pool_no_phantom_pending {pool0 : Int} {oc : Bool} {s : RootP.St} (h : Ro
 /-- non-vacuity: the initial state is reachable and satisfies the quiescence hypotheses -/
 example : ∃ s, LaneR.Reachable s ∧ (∀ t, LaneR.atRest (s.pcs t) = true) ∧ s.sh.tokens = 0 :=
   ⟨_, LaneR.Reachable.init, fun _ => rfl, rfl⟩
+
+/-! ## the word-level rules behind "a drainer may only release the lock if DIRTY is clear" (`DqW`, over the generated constants;
+    each function is compared with the compiled one on generated words on every run) -/
+
+/-- a drainer cannot release the drain lock while DIRTY is set (unless the queue is suspended): the unlock is refused, only DIRTY
+    is cleared, and the caller looks at the list again -/
+theorem unlock_refused_when_dirty (old owned : Nat) (done : Bool) (hs : DqW.suspended old = false) (hd : DqW.dirty old = true) :
+    DqW.drainTryUnlock old owned done = (false, old ^^^ Gen.DISPATCH_QUEUE_DIRTY) :=
+  DqW.unlock_refused_when_dirty old owned done hs hd
+
+/-- a drainer that leaves without being done (out of width, a barrier it cannot run yet) leaves DIRTY behind, so that whoever
+    gives width back re-drives the queue -/
+theorem unlock_not_done_leaves_dirty (old owned : Nat) (hs : DqW.suspended old = false) (hd : DqW.dirty old = false) :
+    (DqW.drainTryUnlock old owned false).1 = true ∧ DqW.dirty (DqW.drainTryUnlock old owned false).2 = true :=
+  DqW.unlock_not_done_leaves_dirty old owned hs hd
+
+/-- the drain lock is only taken from a runnable, unlocked word -/
+theorem try_lock_only_when_free (old width tid : Nat) (h : (DqW.drainTryLock old width tid).1 ≠ 0) :
+    old &&& DqW.lockFailMask = 0 := DqW.try_lock_only_when_free old width tid h
+
+/-- the synchronous barrier fast path is only taken from the idle word -/
+theorem barrier_sync_only_from_idle (old width tid : Nat) (h : (DqW.tryAcquireBarrierSync old width tid).1 = true) :
+    old = (DqW.initValue width ||| (old &&& Gen.DISPATCH_QUEUE_ROLE_MASK)) := DqW.barrier_sync_only_from_idle old width tid h
+
+/-- width is never handed out past a DIRTY or PENDING_BARRIER word, nor when the lane is full -/
+theorem width_refused_when_dirty_or_pending (old : Nat) :
+    ((DqW.tryAcquireAsync old).1 = true → DqW.runnable old = true ∧ DqW.dirty old = false ∧ DqW.pendingBarrier old = false) ∧
+    (∀ tail, (DqW.tryReserveSyncWidth old tail).1 = true →
+      tail = false ∧ DqW.syncRunnable old = true ∧ DqW.dirty old = false ∧ DqW.pendingBarrier old = false) :=
+  ⟨DqW.async_width_refused old, fun tail => DqW.sync_width_refused old tail⟩
 
 end C01
